@@ -144,7 +144,7 @@ fn kind(r: &mut Rng, x_prob: f64) -> VK {
 pub fn gen_shapes(r: &mut Rng, pool: PhasePool, max_bnd: usize) -> DDesc {
     let mut a = Acc { verts: vec![], edges: vec![], bnds: vec![] };
     let ncomp = 1 + r.below(4);
-    let x_prob = *r.pick(&[0.0, 0.4, 1.0]);
+    let x_prob: f64 = *r.pick(&[0.0, 0.4, 1.0]);
     let want_closed = r.chance(0.2);
     for _ in 0..ncomp {
         let room = max_bnd.saturating_sub(a.bnds.len());
